@@ -260,6 +260,104 @@ func (c *chain) forgeries(r *hx.Rng) map[string][]byte {
 	return out
 }
 
+func rawSignedHeader(h *types.Header, sig, addr, key []byte) []byte {
+	b, _ := proto.Marshal(&pb.SignedHeader{Header: h.ToProto(), Signature: sig, Signer: &pb.Signer{Address: addr, PubKey: key}})
+	return b
+}
+
+// p2pVariants: the header of height h as the proposer signed it, and copies nobody or somebody else signed
+func (c *chain) p2pVariants(r *hx.Rng, h uint64) map[string][]byte {
+	out := map[string][]byte{}
+	g := c.shs[h]
+	if g == nil {
+		return out
+	}
+	advPriv, advPub := bm.DetKey(2)
+	gaddr, aaddr := types.KeyAddress(c.pub), types.KeyAddress(advPub)
+	gkey, _ := crypto.MarshalPublicKey(c.pub)
+	akey, _ := crypto.MarshalPublicKey(advPub)
+	sign := func(hh *types.Header, k crypto.PrivKey) []byte {
+		pl, _ := hh.MarshalBinary()
+		s, _ := k.Sign(pl)
+		return s
+	}
+	gh := g.Header
+	out["a-genuine"] = c.hdr[h]
+	out["b-unsigned"] = rawSignedHeader(&gh, nil, gaddr, gkey)
+	out["c-garbage-signature"] = rawSignedHeader(&gh, r.Bytes(64), gaddr, gkey)
+	out["d-foreign-key-proposer-address"] = rawSignedHeader(&gh, sign(&gh, advPriv), gaddr, akey)
+	out["e-right-key-wrong-address-field"] = rawSignedHeader(&gh, g.Signature, aaddr, gkey)
+	m := gh
+	m.AppHash = r.Bytes(32) // the hash link to the previous header is untouched
+	out["f-mutated-old-signature"] = rawSignedHeader(&m, g.Signature, gaddr, gkey)
+	out["g-mutated-resigned-foreign-key"] = rawSignedHeader(&m, sign(&m, advPriv), gaddr, akey)
+	wp := gh
+	wp.ProposerAddress = aaddr
+	out["h-foreign-proposer-self-consistent"] = rawSignedHeader(&wp, sign(&wp, advPriv), aaddr, akey)
+	out["i-key-absent"] = rawSignedHeader(&gh, g.Signature, gaddr, nil)
+	out["j-no-signer-unsigned"] = rawSignedHeader(&gh, nil, nil, nil)
+	bl := gh
+	bl.LastHeaderHash = r.Bytes(32)
+	out["k-unsigned-broken-link"] = rawSignedHeader(&bl, nil, gaddr, gkey)
+	cid := gh
+	cid.BaseHeader.ChainID = "other-chain"
+	out["l-unsigned-wrong-chain"] = rawSignedHeader(&cid, nil, gaddr, gkey)
+	return out
+}
+
+// p2pAhead: forged headers far ahead of the head, from the future, older than the head
+func (c *chain) p2pAhead(r *hx.Rng) map[string][]byte {
+	out := map[string][]byte{}
+	g := c.shs[c.top]
+	advPriv, advPub := bm.DetKey(2)
+	gaddr := types.KeyAddress(c.pub)
+	gkey, _ := crypto.MarshalPublicKey(c.pub)
+	akey, _ := crypto.MarshalPublicKey(advPub)
+	f := g.Header
+	f.BaseHeader.Height = c.top + 5
+	f.BaseHeader.Time += 5_000_000_000
+	f.LastHeaderHash = r.Bytes(32)
+	out["ahead-unsigned"] = rawSignedHeader(&f, nil, gaddr, gkey)
+	pl, _ := f.MarshalBinary()
+	sg, _ := advPriv.Sign(pl)
+	out["ahead-foreign-key"] = rawSignedHeader(&f, sg, gaddr, akey)
+	ft := f
+	ft.BaseHeader.Time = 7_258_118_400_000_000_000 // year 2200
+	out["ahead-from-the-future"] = rawSignedHeader(&ft, nil, gaddr, gkey)
+	fw := f
+	fw.BaseHeader.Time = 1 << 63 // wraps to a negative time
+	out["ahead-time-wraps"] = rawSignedHeader(&fw, nil, gaddr, gkey)
+	fo := f
+	fo.BaseHeader.Time = g.Header.BaseHeader.Time - 3_000_000_000
+	out["ahead-older-than-head"] = rawSignedHeader(&fo, nil, gaddr, gkey)
+	// the same shapes signed by the proposer itself (only the proposer can make these): they pass Validate, so the
+	// library's Verify decides - this is what exercises the Verify stage of the model
+	psign := func(hh *types.Header) []byte {
+		pl, _ := hh.MarshalBinary()
+		s, _ := c.priv.Sign(pl)
+		return rawSignedHeader(hh, s, gaddr, gkey)
+	}
+	out["proposer-signed-ahead"] = psign(&f)
+	out["proposer-signed-from-the-future"] = psign(&ft)
+	out["proposer-signed-time-wraps"] = psign(&fw)
+	out["proposer-signed-older-than-head"] = psign(&fo)
+	adj := g.Header
+	adj.BaseHeader.Height = c.top + 1
+	adj.BaseHeader.Time += 1_000_000_000
+	adj.LastHeaderHash = g.Hash()
+	out["proposer-signed-next"] = psign(&adj)
+	adjb := adj
+	adjb.LastHeaderHash = r.Bytes(32)
+	out["proposer-signed-next-broken-link"] = psign(&adjb)
+	adjc := adj
+	adjc.BaseHeader.ChainID = "other-chain"
+	out["proposer-signed-next-wrong-chain"] = psign(&adjc)
+	adjt := adj
+	adjt.BaseHeader.Time = g.Header.BaseHeader.Time // equal times are allowed
+	out["proposer-signed-next-same-time"] = psign(&adjt)
+	return out
+}
+
 func junk(r *hx.Rng, src []byte) []byte {
 	b := append([]byte(nil), src...)
 	switch r.Intn(8) {
@@ -335,6 +433,53 @@ func genStream(r *hx.Rng, tier string, w io.Writer, adversarial bool) {
 		for _, name := range hx.SortedKeys(fg) {
 			fmt.Fprintf(w, "p2phdr %s\n", blobArgs(fg[name]))
 		}
+		// the P2P library entry (go-header: Validate, then Verify against a trusted header): every height of the
+		// genuine chain in genuine and forged variants, against trusted = head, an older header, a later header, none
+		fmt.Fprintf(w, "reset ih=1 gt=%d pa=%s start=0\n", baseTime, paHex())
+		lib := func(trusted, b []byte) {
+			t := "-"
+			tk := 0
+			if trusted != nil {
+				t = hx.Hex(trusted)
+				k, _, _, _ := Oracles(trusted)
+				tk = b01(k)
+			}
+			fmt.Fprintf(w, "p2plib trusted=%s tkeyok=%d %s\n", t, tk, blobArgs(b))
+		}
+		for h := c.ih; h <= c.top; h++ {
+			vs := c.p2pVariants(r, h)
+			var trs [][]byte
+			if h > c.ih {
+				trs = append(trs, c.hdr[h-1])
+			}
+			if h > c.ih+1 {
+				trs = append(trs, c.hdr[h-2])
+			}
+			if h < c.top {
+				trs = append(trs, c.hdr[h+1]) // the received header is already known
+			}
+			trs = append(trs, nil)
+			for _, name := range hx.SortedKeys(vs) {
+				for _, tr := range trs {
+					lib(tr, vs[name])
+				}
+			}
+		}
+		// everything else the grammar produces (built from the top header), against head-1, head-2 and no trusted header
+		for _, name := range hx.SortedKeys(fg) {
+			lib(c.hdr[c.top-1], fg[name])
+			lib(c.hdr[c.top-2], fg[name])
+			lib(nil, fg[name])
+		}
+		// far ahead of the head (Verify skips the hash link for non-adjacent heights), from the future, before the head
+		ah := c.p2pAhead(r)
+		for _, name := range hx.SortedKeys(ah) {
+			lib(c.hdr[c.top], ah[name])
+			lib(c.hdr[c.top-1], ah[name])
+		}
+		// a trusted header that does not decode, an empty message
+		fmt.Fprintf(w, "p2plib trusted=ffff tkeyok=0 %s\n", blobArgs(c.hdr[c.top]))
+		lib(c.hdr[c.top-1], nil)
 	}
 	var srcs [][]byte
 	for h := c.ih; h <= c.top; h++ {
